@@ -113,7 +113,20 @@ def check_C09(ctx, rep):
         # the by-value twin has the identical body (R21/R22 check both twins against the same reference)
         exp2 = call("core::result::Result::<T, E>::ok<%s,TwoFloatError>" % t, call("<%s as core::convert::TryFrom<TwoFloat>>::try_from" % t, a))
         n23 += 1
-        rep.check(tr[0] == "leaf" and (tr[1] is exp or tr[1] is exp2), "R23", "ToPrimitive::to_%s" % t, "delegation:to_" + t, "to_%s is not %s::try_from(self).ok(): %s" % (t, t, vg.show(tr)[:200]), where=H.where(b), nontrivial=False)
+        ok23 = tr[0] == "leaf" and (tr[1] is exp or tr[1] is exp2)
+        if not ok23:
+            # the same thing spelled `match T::try_from(self) { Ok(v) => Some(v), Err(_) => None }`: compared with core's plumbing read through
+            try:
+                tr = H.tree_of(f, b, "op")
+                NONE_ = mk("agg", ("adt", "core::option::Option", 0, "None"), ())
+                for src_ in ("&TwoFloat", "TwoFloat"):
+                    C_ = call("<%s as core::convert::TryFrom<%s>>::try_from" % (t, src_), a)
+                    ref_ = ("switch", mk("discr", C_), ((0, ("leaf", SOME(mk("field", mk("downcast", C_, "Ok"), 0)), ())), (1, ("leaf", NONE_, ()))), ("unreachable",))
+                    if D.equivalent(tr, ref_) is None:
+                        ok23 = True; break
+            except (vg.Unsupported, RuntimeError):
+                pass
+        rep.check(ok23, "R23", "ToPrimitive::to_%s" % t, "delegation:to_" + t, "to_%s is not %s::try_from(self).ok(): %s" % (t, t, vg.show(tr)[:200]), where=H.where(b), nontrivial=False)
     for pre, tys, kind in (("from_", "i", "FromPrimitive"), ("from_", "u", "FromPrimitive"), ("to_", "i", "ToPrimitive"), ("to_", "u", "ToPrimitive")):
         ident = "<TwoFloat as num_traits::%s>::%s%ssize" % (kind, pre, tys)
         b = f.get(ident)
@@ -123,9 +136,12 @@ def check_C09(ctx, rep):
             # arm for size v: to_<t>(self) mapped with the lossless / same-width cast to the pointer-sized type, in any spelling
             # (`.map(|i| i as isize)`, `Some(x? as isize)`, `isize::from`): compared semantically with the plumbing read through
             tr = H.tree_of(f, b, "op")
-            ok = tr[0] == "switch"
+            # (a dispatch on the constant `isize::BITS` instead of `size_of::<isize>()` is folded for this target: its one live arm
+            #  is the arm for 8 bytes)
+            arms_ = tr[2] if (tr[0] == "switch" and tag(tr[1]) == "call" and "size_of" in tr[1][1]) else ((8, tr),)
+            ok = True
             if ok:
-                for v, sub in tr[2]:
+                for v, sub in arms_:
                     t_ = "%s%d" % (tys, 8 * v)
                     C = call("<TwoFloat as num_traits::ToPrimitive>::to_%s" % t_, a)
                     pay = mk("field", mk("downcast", C, "Some"), 0)
@@ -138,9 +154,10 @@ def check_C09(ctx, rep):
                         ok = False
         else:
             tr = H.tree_of(f, b, "none")
-            ok = tr[0] == "switch"
+            arms_ = tr[2] if (tr[0] == "switch" and tag(tr[1]) == "call" and "size_of" in tr[1][1]) else ((8, tr),)
+            ok = True
             if ok:
-                for v, sub in tr[2]:
+                for v, sub in arms_:
                     want = "%s%s%d" % (pre, tys, 8 * v)
                     names = [n[1] for n in all_nodes(sub[1]) if tag(n) == "call"] if sub[0] == "leaf" else []
                     ok &= any(nm.endswith("::" + want) for nm in names)
